@@ -185,6 +185,12 @@ def patchBytes (p : Patch) : Bytes :=
 
 def patchD (p : Patch) : String := "(h " ++ bytesTok (patchBytes p) ++ ")"
 
+/-- the same pre-image with an explicit `TickCommitStatus` code (1 Committed, 2 Aborted); only used
+    by the driver to render a tampered replay patch of a checkpoint's `tick_history`. -/
+def patchDSt (st : UInt8) (p : Patch) : String :=
+  "(h " ++ bytesTok (patchDigestTag ++ u16le 2 ++ u32le p.policy ++ id32B p.rulePack ++ [st]
+    ++ slotsB (canonSlots p.inSlots) ++ slotsB (canonSlots p.outSlots) ++ opsB (canonOps p.ops)) ++ ")"
+
 /-- `compute_commit_hash_v2`. -/
 def commitD (parents : List String) (root pd : String) (policy : Nat) : String :=
   "(h " ++ bytesTok (commitIdTag ++ u16le 2 ++ u64le parents.length)
@@ -201,7 +207,10 @@ def receiptD (warp : Nat) (es : List RcptEntry) : String :=
     id32B r ++ id32B sh ++ id32B warp ++ id32B n ++ [UInt8.ofNat c])) ++ ")"
 
 abbrev Outs := List (Nat × Bytes)
-abbrev PMeta := Nat × String × Nat × String
+/-- what else of a tick lands in `tick_history`: (plan, decision, rewrites digest of the snapshot,
+    digest pre-image of the canonical replay patch, snapshot root key as a deviation from the state's
+    own root key: 0 in everything replay produces). -/
+abbrev PMeta := Nat × String × Nat × String × Nat
 
 def sem : Chain.Sem Graph Patch String Outs PMeta where
   apply g p := applyOps g p.ops
@@ -212,7 +221,7 @@ def sem : Chain.Sem Graph Patch String Outs PMeta where
   computed := patchD
   decision p := p.decision
   commit := commitD
-  pmeta p := (p.plan, p.decision, p.rewrites, patchD p)
+  pmeta p := (p.plan, p.decision, p.rewrites, patchD p, 0)
   noOut := []
   emptyRcpt := receiptD 0 []
 
